@@ -36,3 +36,17 @@ NOT_APPLICABLE = {
 }
 
 NOTES = "Exit codes: 0 all obligations discharged; 1 VIOLATION (a named obligation failed); 2 UNDECIDED (lost anchor / unsupported construct / solver limit — never reported as a violation)."
+
+PROPS["C12"] = {
+    "level": "proof",
+    "technique": "Verus soundness contract on the extracted evaluate_against_stats (every arm, And/Or/Not recursion) against row semantics over an abstract totally pre-ordered key domain; Kani complete harnesses for the numeric leaf comparators on the real serde_json::Value",
+    "verus": ["c12_pruning.rs.in"],
+    "kani": ["c12_leaves"],
+    "explanation": "",
+    "assumptions": [
+        "HashMap::get returns the entry stored under the key (shim StatsMap)",
+        "Iterator::any over a slice = exists over its elements (combinator shim; the closure body is verified as lifted real text)",
+        "the key order of each type family is a total preorder; row values are compared through the literal's family (DataFusion casts an integer column to double for a float literal); chunk statistics are true minima / maxima under each accessor (monotone accessors)",
+        "string comparison (byte-wise Ord on str) is a total order: the String arms of the leaves are covered only through this assumption (Kani harness for strings not built)",
+    ],
+}
